@@ -54,6 +54,10 @@ def counter_rule(ctx, fn, local, ty, inst, what):
 
 
 def check_hkdf(ctx, P):
+    # the functions themselves, against RFC 5869 with an uninterpreted digest that arrives with history (independent of
+    # how the code is organised); the structural rules below stay as cross-checks
+    from . import objshape
+    ctx.guard("shape-eval", "hkdf", lambda: objshape.check_hkdf(ctx, P))
     fn = P.fn("hkdf::hkdf_expand")
     loops = [l for l in rules.iter_loops(fn) if any(s[0] == "chunks_mut" for s in l["sources"])]
     if len(loops) != 1:
